@@ -30,6 +30,12 @@ func c03CaseWL(r *core.Run, wl string, idx int, rng *rand.Rand) {
 	if rng.Intn(12) == 0 {
 		sc.S.ACS = "" // reply returned in the HTTP body
 	}
+	if idx%8 == 5 {
+		// the entity ID is configured as a URL of its own on the metadata endpoint: any absolute URI will do, a URN too
+		sc.EntityID = []string{"urn:example:idp:" + strings.ToLower(canary), "https://entity.example/idp/" + canary, "tag:example.org,2026:idp", "urn:mace:example.org:idp"}[rng.Intn(4)]
+		m := provider.NewEndpointWithURL("/metadata", sc.EntityID)
+		sc.Opts.Metadata = &m
+	}
 	e := sc.build()
 	// sometimes another user's callback fails late (after its data was loaded) right before, on the same provider
 	if idx%6 == 2 {
